@@ -1,0 +1,7 @@
+//go:build !verif
+
+package dilithium
+
+// verifSignAttempt is the disabled form of the verification hook that counts
+// rejection-loop iterations (see verif_on.go).
+func verifSignAttempt() {}
